@@ -899,8 +899,8 @@ Proof.
   { intros r' E. rewrite E, rf_scan_cons. rewrite rf_step_skip; [reflexivity|exact Hpend1|left; rewrite Hend1; lia]. }
   destruct (N.eqb_spec (wm_fpos r1) 0) as [E0|_]; [lia|].
   split; [exact Hflt1|].
-  eexists. split; [|reflexivity].
-  rewrite (Hlog _ eq_refl). exact Hout1.
+  exists {| rc_off := wm_fend (wm_b_raw b); rc_tag := JLS_TAG_END; rc_meta := 0; rc_pay := [] |}. split; [|reflexivity].
+  match goal with |- rp_out (rf_scan (wm_rlog ?r)) = _ => rewrite (Hlog r) by reflexivity end. exact Hout1.
 Qed.
 
 (* ---- the whole program ---- *)
@@ -929,7 +929,7 @@ Qed.
 Lemma rp_G0_open : sid <> 0 -> rp_G0 wm_api_open.
 Proof.
   intro Hne. split; [apply rf_bokb_ok; vm_compute; reflexivity|].
-  split. { unfold wm_find_sig. change (wm_st_sigs wm_api_open) with [match wm_st_sigs wm_api_open with s :: _ => s | [] => hd_error_default end] || idtac.
+  split. { unfold wm_find_sig.
            assert (E : map wm_sig_id (wm_st_sigs wm_api_open) = [0]) by (vm_compute; reflexivity).
            destruct (wm_st_sigs wm_api_open) as [|s0 [|s1 l]]; try discriminate E. cbn [map] in E. injection E as E.
            cbn [find]. rewrite E. destruct (N.eqb_spec 0 sid); [congruence|reflexivity]. }
@@ -954,3 +954,154 @@ Proof.
 Qed.
 
 End RPG.
+
+Lemma rp_filter_rev : forall (A : Type) (f : A -> bool) l, filter f (rev l) = rev (filter f l).
+Proof.
+  intros A f l. induction l as [|x l IH]; [reflexivity|]. cbn [rev filter]. rewrite filter_app, IH. cbn [filter].
+  destruct (f x); [reflexivity|apply app_nil_r].
+Qed.
+
+(* ------------------------------------------------------------------ the program-level theorem (partial class) *)
+Lemma rp_in_signal_ids : forall sid, sid < 256 -> In sid wm_signal_ids.
+Proof.
+  intros sid H. unfold wm_signal_ids. apply in_map_iff. exists (N.to_nat sid). split; [apply N2Nat.id|].
+  apply in_seq. change (N.to_nat JLS_SIGNAL_COUNT) with 256%nat. lia.
+Qed.
+
+Lemma rp_prog_core : forall summ1 summN d0 d pos0 p2 stf st1,
+  (0 < pos0)%Z -> sg_id d < 256 -> sg_type d = JLS_SIGNAL_TYPE_FSR -> 0 < sg_spd d ->
+  (dt_bits (sg_dtype d) < 8 \/ dt_bits (sg_dtype d) mod 8 = 0) ->
+  0 < wm_fill_buf_samples (sg_dtype d) ->
+  32 * sg_eps d + 16 < 4294967296 -> 8 * sg_sumdf d + 16 < 4294967296 ->
+  16 + (sg_spd d * dt_bits (sg_dtype d) + 7) / 8 < 4294967296 ->
+  rp_G0 d st1 -> Forall (rp_ok (sg_id d)) p2 ->
+  snd (wm_api_signal_def st1 d0) = 0 -> wm_sig_align d0 = Some d ->
+  py_srun (rf_pd d) (dt_bits (sg_dtype d) <=? 8) (rf_t0 (rp_proj (sg_id d) p2)) pos0 (rf_script d rf_bs0 (rp_proj (sg_id d) p2)) = PyOk stf ->
+  forall stF, stF = wm_api_close summ1 summN (fold_left (fun st o => fst (wm_step_rc summ1 summN st o)) p2 (fst (wm_api_signal_def st1 d0))) ->
+  wm_st_fault stF = false /\
+  exists cs, filter (rf_mine d) (rf_chunks (wm_st_log stF)) = cs /\
+    Forall2 (rf_chunk_rel d pos0 (rf_t0 (rp_proj (sg_id d) p2)) (map rc_off cs) (rf_blocks d rf_bs0 (rp_proj (sg_id d) p2))) cs (pw_disk stf).
+Proof.
+  intros summ1 summN d0 d pos0 p2 stf st1 Hpos0 Hsid Hty Hspd Hw Hfill Hg1 Hg2 Hg3 HG0 Hok2 Hrc Hal Hpy stF EF.
+  assert (Hg_idx := rf_guard_idx d ltac:(lia) Hg2).
+  assert (Hg_sum : (32 * py_eps (rf_pd d) + 16 < 4294967296)%Z) by (unfold rf_pd; cbn [py_eps]; lia).
+  unfold py_srun, py_run in Hpy. destruct (py_div_ok (rf_pd d)); [|discriminate]. unfold py_bind in Hpy.
+  destruct (py_do_all (rf_pd d) (py_plan (dt_bits (sg_dtype d) <=? 8) (py_sdf (rf_pd d)) 0 (rf_script d rf_bs0 (rp_proj (sg_id d) p2))) (py_init (rf_t0 (rp_proj (sg_id d) p2)) pos0)) as [stm|e] eqn:Edo; [|discriminate].
+  pose proof (rp_G0_define d pos0 Hty st1 d0 _ stm stf HG0 Hrc Hal Edo Hpy) as HG1.
+  pose proof (rp_G1_steps summ1 summN d pos0 Hpos0 Hsid Hty Hg_idx Hg_sum Hspd Hw Hg3 Hfill p2 _ _ _ _ HG1 Hok2) as HG1e.
+  pose proof (rp_G1_G1c d pos0 _ _ _ _ HG1e) as HGc.
+  destruct (rp_close_fold summ1 summN d pos0 Hpos0 Hsid Hg_idx Hg_sum Hspd Hw Hg3 Hfill _ _ _ wm_signal_ids _ (or_introl HGc)) as (_ & Hd).
+  specialize (Hd (rp_in_signal_ids _ Hsid)). destruct Hd as (Hb & _ & cs & HF & Hfil).
+  destruct (rp_finish summ1 d Hsid Hty Hspd Hw Hg3 Hfill _ Hb) as (Hflt & c & Hout & Htag).
+  revert Hflt Hout Hfil. rewrite EF. unfold wm_api_close.
+  generalize (fold_left (wm_close_signal summ1 summN) wm_signal_ids (fold_left (fun st o => fst (wm_step_rc summ1 summN st o)) p2 (fst (wm_api_signal_def st1 d0)))).
+  intros stc Hflt Hout Hfil.
+  unfold wm_st_fault, wm_st_log. cbn [wm_st_set_base wm_st_base wm_b_set_raw wm_b_raw].
+  split; [exact Hflt|].
+  exists cs. split; [|exact HF].
+  unfold rf_chunks. rewrite rp_filter_rev, Hout. cbn [filter].
+  assert (Hc : rf_mine d c = false) by (unfold rf_mine; rewrite Htag; reflexivity).
+  rewrite Hc, Hfil. apply rev_involutive.
+Qed.
+
+Lemma rp_run_full_eq : forall summ1 summN p1 o p2,
+  fst (wm_run_full summ1 summN (p1 ++ o :: p2)) =
+  wm_api_close summ1 summN (fold_left (fun st o => fst (wm_step_rc summ1 summN st o)) p2
+    (fst (wm_step_rc summ1 summN (fst (wm_steps summ1 summN wm_api_open p1 [])) o))).
+Proof.
+  intros summ1 summN p1 o p2. unfold wm_run_full.
+  pose proof (rp_steps_fold summ1 summN (p1 ++ o :: p2) wm_api_open []) as E.
+  destruct (wm_steps summ1 summN wm_api_open (p1 ++ o :: p2) []) as [stx rcs]. cbn [fst] in *. rewrite E.
+  rewrite fold_left_app. cbn [fold_left]. rewrite rp_steps_fold. reflexivity.
+Qed.
+
+Theorem rp_prog_fsr_partial : forall summ1 summN d0 d pos0 p1 p2 stf,
+  (0 < pos0)%Z -> sg_id d < 256 -> sg_id d <> 0 -> sg_type d = JLS_SIGNAL_TYPE_FSR -> 0 < sg_spd d ->
+  (dt_bits (sg_dtype d) < 8 \/ dt_bits (sg_dtype d) mod 8 = 0) ->
+  0 < wm_fill_buf_samples (sg_dtype d) ->
+  32 * sg_eps d + 16 < 4294967296 -> 8 * sg_sumdf d + 16 < 4294967296 ->
+  16 + (sg_spd d * dt_bits (sg_dtype d) + 7) / 8 < 4294967296 ->
+  let sid := sg_id d in
+  let p := p1 ++ WSig d0 :: p2 in
+  Forall (rp_ok sid) p ->
+  Forall (fun o => match o with WSig d' => sg_id d' <> sid | _ => True end) p1 ->
+  let st1 := fst (wm_steps summ1 summN wm_api_open p1 []) in
+  snd (wm_api_signal_def st1 d0) = 0 -> wm_sig_align d0 = Some d ->
+  let ops := rp_proj sid p2 in
+  py_srun (rf_pd d) (dt_bits (sg_dtype d) <=? 8) (rf_t0 ops) pos0 (rf_script d rf_bs0 ops) = PyOk stf ->
+  let stF := fst (wm_run_full summ1 summN p) in
+  wm_st_fault stF = false /\
+  exists cs, filter (rf_mine d) (rf_chunks (wm_st_log stF)) = cs /\
+    Forall2 (rf_chunk_rel d pos0 (rf_t0 ops) (map rc_off cs) (rf_blocks d rf_bs0 ops)) cs (pw_disk stf).
+Proof.
+  intros summ1 summN d0 d pos0 p1 p2 stf Hpos0 Hsid Hne Hty Hspd Hw Hfill Hg1 Hg2 Hg3.
+  cbv zeta. intros Hok Hns Hrc Hal Hpy.
+  apply Forall_app in Hok. destruct Hok as (Hok1 & Hok2). inversion Hok2 as [|? ? Hokd Hok2']; subst.
+  pose proof (rp_G0_steps summ1 summN d p1 wm_api_open (rp_G0_open d Hne) Hok1 Hns) as HG0.
+  rewrite <- (rp_steps_fold summ1 summN p1 wm_api_open []) in HG0.
+  apply (rp_prog_core summ1 summN d0 d pos0 p2 stf _ Hpos0 Hsid Hty Hspd Hw Hfill Hg1 Hg2 Hg3 HG0 Hok2' Hrc Hal Hpy).
+  apply rp_run_full_eq.
+Qed.
+
+(* ------------------------------------------------------------------ the hypotheses are satisfiable *)
+Definition rpx_src : srcdef :=
+  {| so_id := 3; so_name := SBytes [97; 98]; so_vendor := SNull; so_model := SBytes []; so_version := SNull; so_serial := SNull |}.
+Definition rpx_sig : sigdef :=
+  {| sg_id := 5; sg_src := 3; sg_type := JLS_SIGNAL_TYPE_FSR; sg_dtype := JLS_DATATYPE_U8; sg_rate := 1000; sg_spd := 32; sg_sdf := 32;
+     sg_eps := 10; sg_sumdf := 10; sg_adf := 10; sg_udf := 10; sg_name := SBytes [120]; sg_units := SNull |}.
+Definition rpx_vsr : sigdef :=
+  {| sg_id := 7; sg_src := 3; sg_type := JLS_SIGNAL_TYPE_VSR; sg_dtype := JLS_DATATYPE_U8; sg_rate := 0; sg_spd := 0; sg_sdf := 0;
+     sg_eps := 0; sg_sumdf := 0; sg_adf := 0; sg_udf := 0; sg_name := SBytes [121]; sg_units := SNull |}.
+Definition rpx_ud : udata := {| ud_meta := 9; ud_stype := 1; ud_data := [1; 2; 3] |}.
+Definition rpx_d : sigdef := match wm_sig_align rpx_sig with Some d => d | None => rpx_sig end.
+Definition rpx_p1 : list wop := [WUd rpx_ud; WSrc rpx_src; WSig rpx_vsr; WFsr 5 0%Z [1; 2]].
+Definition rpx_p2 : list wop :=
+  [WFsr 5 100%Z (map N.of_nat (seq 0 70)); WUd rpx_ud; WOmit 5 1; WOmit 7 1; WFlush; WSig rpx_sig;
+   WFsr 5 175%Z (repeat 7 400); WSrc rpx_src].
+
+Lemma rp_prog_example :
+  (0 < 1)%Z /\ sg_id rpx_d < 256 /\ sg_id rpx_d <> 0 /\ sg_type rpx_d = JLS_SIGNAL_TYPE_FSR /\ 0 < sg_spd rpx_d /\
+  (dt_bits (sg_dtype rpx_d) < 8 \/ dt_bits (sg_dtype rpx_d) mod 8 = 0) /\
+  0 < wm_fill_buf_samples (sg_dtype rpx_d) /\ 32 * sg_eps rpx_d + 16 < 4294967296 /\ 8 * sg_sumdf rpx_d + 16 < 4294967296 /\
+  16 + (sg_spd rpx_d * dt_bits (sg_dtype rpx_d) + 7) / 8 < 4294967296 /\
+  Forall (rp_ok (sg_id rpx_d)) (rpx_p1 ++ WSig rpx_sig :: rpx_p2) /\
+  Forall (fun o => match o with WSig d' => sg_id d' <> sg_id rpx_d | _ => True end) rpx_p1 /\
+  snd (wm_api_signal_def (fst (wm_steps wm_zero_summ1 wm_zero_summN wm_api_open rpx_p1 [])) rpx_sig) = 0 /\
+  wm_sig_align rpx_sig = Some rpx_d /\
+  exists stf, py_srun (rf_pd rpx_d) (dt_bits (sg_dtype rpx_d) <=? 8) (rf_t0 (rp_proj (sg_id rpx_d) rpx_p2)) 1
+                (rf_script rpx_d rf_bs0 (rp_proj (sg_id rpx_d) rpx_p2)) = PyOk stf /\
+    length (pw_disk stf) = 10%nat /\
+    snd (wm_run_full wm_zero_summ1 wm_zero_summN (rpx_p1 ++ WSig rpx_sig :: rpx_p2)) = [0; 0; 0; 16; 0; 0; 0; 0; 3; 0; 17; 0; 17] /\
+    map (fun c => (rc_tag c, fm_meta_level (rc_meta c)))
+        (filter (rf_mine rpx_d) (rf_chunks (wm_st_log (fst (wm_run_full wm_zero_summ1 wm_zero_summN (rpx_p1 ++ WSig rpx_sig :: rpx_p2)))))) =
+    [(34, 0); (34, 0); (34, 0); (35, 1); (36, 1); (34, 0); (35, 1); (36, 1); (35, 2); (36, 2)] /\
+    length (rf_chunks (wm_st_log (fst (wm_run_full wm_zero_summ1 wm_zero_summN (rpx_p1 ++ WSig rpx_sig :: rpx_p2))))) = 33%nat.
+Proof.
+  split; [reflexivity|]. split; [vm_compute; reflexivity|]. split; [vm_compute; discriminate|]. split; [vm_compute; reflexivity|].
+  split; [vm_compute; reflexivity|]. split; [right; vm_compute; reflexivity|].
+  split; [vm_compute; reflexivity|]. split; [vm_compute; reflexivity|]. split; [vm_compute; reflexivity|]. split; [vm_compute; reflexivity|].
+  split. { repeat constructor. }
+  split. { repeat constructor. vm_compute. discriminate. }
+  split; [vm_compute; reflexivity|]. split; [vm_compute; reflexivity|].
+  eexists. split; [vm_compute; reflexivity|]. split; [vm_compute; reflexivity|]. split; [vm_compute; reflexivity|].
+  split; vm_compute; reflexivity.
+Qed.
+
+(* the vocabulary of the program-level theorem, for Properties_refine.v *)
+Lemma rp_vocab_prog :
+  (forall sid o, rp_ok sid o =
+     match o with
+     | WFsr s _ _ => s = sid
+     | WAnno _ _ => False
+     | WUtc _ _ _ => False
+     | WUd u => N.of_nat (length (ud_data u)) + 1 < 4294967296
+     | _ => True
+     end) /\
+  (forall sid, rp_proj sid [] = []) /\
+  (forall sid o r, rp_proj sid (o :: r) =
+     match o with
+     | WFsr s sample_id samples => if s =? sid then RfData sample_id samples :: rp_proj sid r else rp_proj sid r
+     | WOmit s en => if s =? sid then RfOmit en :: rp_proj sid r else rp_proj sid r
+     | _ => rp_proj sid r
+     end).
+Proof. split; [reflexivity|]. split; [reflexivity|]. intros sid o r. destruct o; reflexivity. Qed.
